@@ -53,23 +53,42 @@ class Module:
                 todo.extend(ast.iter_child_nodes(n))
 
 
-def local_binding_order(fn):
-    """Non-parameter local names of a function in order of first binding (source order), nested scopes excluded."""
+def local_binding_order(fn, kinds=None):
+    """Non-parameter local names of a function in order of first binding (source order), nested scopes excluded.
+    If `kinds` is a dict it is filled with name -> kind of that first binding (assign / for / except / with / other)."""
     ps = set(a.arg for a in fn.args.posonlyargs + fn.args.args + fn.args.kwonlyargs)
     if fn.args.vararg:
         ps.add(fn.args.vararg.arg)
     if fn.args.kwarg:
         ps.add(fn.args.kwarg.arg)
     found = []
+    kind_of = {}
+
+    def mark(node, kind):
+        for x in ast.walk(node):
+            if isinstance(x, ast.Name) and isinstance(x.ctx, ast.Store):
+                kind_of.setdefault((x.lineno, x.col_offset, x.id), kind)
+    for n in walk_local(fn):
+        if isinstance(n, (ast.Assign, ast.AnnAssign, ast.AugAssign)):
+            for t in (n.targets if isinstance(n, ast.Assign) else [n.target]):
+                mark(t, 'assign')
+        elif isinstance(n, (ast.For, ast.comprehension)):
+            mark(n.target, 'for')
+        elif isinstance(n, ast.With):
+            for it in n.items:
+                if it.optional_vars is not None:
+                    mark(it.optional_vars, 'with')
     for n in walk_local(fn):
         if isinstance(n, ast.Name) and isinstance(n.ctx, ast.Store) and n.id not in ps:
-            found.append((n.lineno, n.col_offset, n.id))
+            found.append((n.lineno, n.col_offset, n.id, kind_of.get((n.lineno, n.col_offset, n.id), 'other')))
         elif isinstance(n, ast.ExceptHandler) and n.name and n.name not in ps:
-            found.append((n.lineno, n.col_offset, n.name))
+            found.append((n.lineno, n.col_offset, n.name, 'except'))
     order = []
-    for _, _, name in sorted(found):
+    for _, _, name, kind in sorted(found):
         if name not in order:
             order.append(name)
+            if kinds is not None:
+                kinds[name] = kind
     return order
 
 
@@ -95,6 +114,20 @@ class _Renamer(ast.NodeTransformer):
 
 
 _REFNAMES = None
+_REFKINDS = None
+
+
+def refkinds():
+    global _REFKINDS
+    if _REFKINDS is None:
+        import json
+        p = os.path.join(os.path.dirname(os.path.abspath(__file__)), 'refkinds.json')
+        try:
+            with open(p) as f:
+                _REFKINDS = json.load(f)
+        except OSError:
+            _REFKINDS = {}
+    return _REFKINDS
 
 
 def refnames():
@@ -110,7 +143,7 @@ def refnames():
     return _REFNAMES
 
 
-def normalise_local_names(rel, module):
+def normalise_local_names(rel, module, strict=False):
     """Rename local variables back to the reference names (same number of locals, same binding order): a pure renaming
     of locals is invisible to the rules.  Parameters, attributes and globals are never renamed."""
     ref = refnames()
@@ -119,20 +152,39 @@ def normalise_local_names(rel, module):
         want = ref.get(rel + '::' + lname)
         if not want:
             continue
-        cur = local_binding_order(fn)
-        if cur == want or len(cur) != len(want):
+        ckinds = {}
+        cur = local_binding_order(fn, ckinds)
+        if cur == want:
             continue
-        # only names that are NEW are mapped, onto the reference names that DISAPPEARED, in order of first binding; a
-        # function whose locals are merely bound in another order (while -> for, statements moved) is left alone
-        fresh = [c for c in cur if c not in want]
-        gone = [w for w in want if w not in cur]
-        if not fresh or len(fresh) != len(gone):
+        # only names that are NEW are mapped, onto the reference names that DISAPPEARED, kind by kind (assigned local, loop
+        # variable, exception name, with-target) and in order of first binding; a kind whose numbers of new and disappeared
+        # names differ is left alone (one of the new names is a temporary, not a renaming)
+        wkinds = refkinds().get(rel + '::' + lname, {})
+        mapping = {}
+        for kind in ('assign', 'for', 'except', 'with', 'other'):
+            fresh = [c for c in cur if c not in want and ckinds.get(c) == kind]
+            gone = [w for w in want if w not in cur and wkinds.get(w, 'assign') == kind]
+            if fresh and len(fresh) == len(gone):
+                mapping.update(zip(fresh, gone))
+        if not mapping:
             continue
-        mapping = dict(zip(fresh, gone))
         # no capture: a target name must not already be used in the function for something else
         used = {n.id for n in walk_local(fn) if isinstance(n, ast.Name)} | {a.arg for a in fn.args.args}
         if any(w in used and w not in cur for w in mapping.values()):
             continue
+        if strict:
+            # first pass (before the temporaries pass): accept the mapping only if it makes the function's simple statements
+            # textually identical to the reference ones - i.e. the edit is a pure renaming and nothing else
+            import copy as _cp
+            from .canon import refshapes, _stmts_in_order
+            want_stmts = refshapes().get(rel + '::' + lname, {}).get('stmts')
+            trial = _cp.deepcopy(fn)
+            rt = _Renamer(mapping)
+            trial.body = [rt.visit(st) for st in trial.body]
+            got = [ast.unparse(n) for n in _stmts_in_order(trial)
+                   if isinstance(n, (ast.Assign, ast.AugAssign, ast.Expr, ast.Return, ast.Raise, ast.Delete, ast.Assert))]
+            if want_stmts is None or got != want_stmts:
+                continue
         r = _Renamer(mapping)
         fn.body = [r.visit(st) for st in fn.body]
         renamed[lname] = mapping
@@ -169,6 +221,13 @@ class Repo:
                 src = src[1:]
             try:
                 self.modules[rel] = Module(rel, src)
+                if os.environ.get('SA_NO_RENAME') != '1':
+                    # first pass: a function whose locals were merely renamed gets its reference names back BEFORE the
+                    # temporaries pass (S9), which would otherwise take a renamed local for a fresh temporary
+                    rn0 = normalise_local_names(rel, self.modules[rel], strict=True)
+                    if rn0:
+                        self.renamed = getattr(self, 'renamed', {})
+                        self.renamed[rel] = dict(rn0)
                 if os.environ.get('SA_NO_CANON') != '1':
                     from .canon import inline_fresh_helpers
                     ih = inline_fresh_helpers(rel, self.modules[rel])
@@ -200,7 +259,7 @@ class Repo:
                     rn = normalise_local_names(rel, self.modules[rel])
                     if rn:
                         self.renamed = getattr(self, 'renamed', {})
-                        self.renamed[rel] = rn
+                        self.renamed.setdefault(rel, {}).update(rn)
                 if os.environ.get('SA_NO_CANON') != '1':
                     from .canon import canonicalise
                     cn = canonicalise(rel, self.modules[rel])
